@@ -28,6 +28,14 @@ func c13bGen(rt *rapid.T) e4Case {
 	} else {
 		// negative class: every ping is answered; the timeout is far away so that load cannot fake a silence
 		c.Cfg.PingTimeoutMs = 2000
+		if rapid.Bool().Draw(rt, "slowHealthy") {
+			// a slow but healthy broker (answers after 30 ms, far inside the 2 s timeout) while the retrying client has a
+			// shorter ResponseTimeout for its requests: the keep-alive must still use its own timeout
+			c.Cfg.PingDelayMs = 30
+			c.Cfg.PingMs = 10
+			c.Cfg.RespTimeoutMs = rapid.SampledFrom([]int{0, 10, 15}).Draw(rt, "respTimeoutMs3")
+			c.Steps = []e4Step{{Kind: "connect"}}
+		}
 		c.Steps = append(c.Steps, e4Step{Kind: "settle"}, e4Step{Kind: "sleep", Extra: c.Cfg.PingMs * 1000 * 10}, e4Step{Kind: "settle"})
 	}
 	return c
